@@ -36,7 +36,7 @@ META = {
 def tasks(tier, seed):
     global CASE_TIMEOUT
     CASE_TIMEOUT = 2.5 if tier == "quick" else 6.0
-    n = 2000 if tier == "quick" else 40000
+    n = 1400 if tier == "quick" else 40000
     shards = 48 if tier == "quick" else 192
     t = [(MOD, "hyp", (n // shards, seed * 1_000_003 + i, tier)) for i in range(shards)]
     for name, nsh in (("py-pairs", 32), ("str-triples", 16), ("extra-triples", 8), ("mixed-py-triples", 8), ("wide-with-neutral", 16), ("str-group-pairs", 8)):
